@@ -109,4 +109,4 @@ package loong64
 //@   ensures[mem]  result == nil ==> mem == la_mem(k, xr(p, arg.Rs1), xr(p, arg.Rd), arg.Imm, old(mem))
 //@   modifies p.RegX, p.RegF[0], p.PC, mem
 //@   safe
-//@   property C20L
+//@   property C20
